@@ -316,6 +316,57 @@ def run(ctx):
 
 
 def replay(obj):
+    c = obj.get("case") or {}
+    if obj.get("kind") == "transform" and "pos" in c and c.get("kind") in ("translate", "rotate", "mirror-point", "mirror-plane"):
+        from ase import Atoms
+        from ase.quaternions import Quaternion
+        from fractions import Fraction
+        from soprano.properties.transform import Mirror, Rotate, Translate
+        from soprano.selection import AtomSelection
+        pos0, cellm = np.array(c["pos"], float), np.array(c["cell"], float)
+        n, sel_i, scaled = len(pos0), list(c["sel"]), bool(c["scaled"])
+        atoms = Atoms("H%d" % n, positions=pos0, cell=cellm, pbc=True)
+        sel = AtomSelection(atoms, sel_i)
+        X0 = np.linalg.solve(cellm.T, pos0.T).T if scaled else pos0
+        p = None
+        try:
+            if c["kind"] == "translate":
+                v = np.array(c["vector"], float)
+                out = Translate(selection=sel, vector=list(v), scaled=scaled)(atoms)
+                f = lambda x: x + v
+            elif c["kind"] == "rotate":
+                Q = Quaternion([float(Fraction(x)) for x in c["quaternion"]])
+                ce = np.array(c["center"], float)
+                out = Rotate(selection=sel, quaternion=Q, center=list(ce), scaled=scaled)(atoms)
+                Rm = Q.rotation_matrix()
+                f = lambda x: Rm @ (x - ce) + ce
+            elif c["kind"] == "mirror-point":
+                ce = np.array(c["center"], float)
+                out = Mirror(selection=sel, center=list(ce), scaled=scaled)(atoms)
+                f = lambda x: 2 * ce - x
+            else:
+                nv, d = np.array(c["plane"][:3], float), float(c["plane"][3])
+                out = Mirror(selection=sel, plane=list(c["plane"]), scaled=scaled)(atoms)
+                f = lambda x: x - 2 * (np.dot(x, nv) + d) / np.dot(nv, nv) * nv
+            outpos = out.get_positions()
+            X1 = np.linalg.solve(cellm.T, outpos.T).T if scaled else outpos
+            for i in range(n):
+                want = f(X0[i]) if i in sel_i else X0[i]
+                if not np.allclose(X1[i], want, atol=1e-9):
+                    p = "atom %d (%s) is at %s, expected %s" % (i, "selected" if i in sel_i else "NOT selected", list(np.round(X1[i], 6)), list(np.round(want, 6)))
+                    break
+            if p is None and not np.allclose(atoms.get_positions(), pos0):
+                p = "the input structure was modified"
+        except Exception as e:
+            p = "raised %s: %s" % (type(e).__name__, e)
+        print("replay transform %s (scaled=%s, %d atoms, selection %s) -> %s" % (c["kind"], scaled, n, sel_i, "property holds" if not p else "PROPERTY FAILS: " + p))
+        return 0 if not p else 1
+    print("replay: nothing executable in this file (re-run ./check C16 with VERIF_SEED=%s): %s %s" % (obj.get("seed"), obj.get("kind"), str(obj.get("detail"))[:300]))
+    return 1
+
+
+def _old_replay(obj):
+
     print("replay: re-run ./check C16 (inputs are regenerated from the seed %s); recorded case: %s %s" % (obj.get("seed"), obj.get("kind"), str(obj.get("case"))[:400]))
     print(obj.get("detail"))
     return 1
